@@ -4,6 +4,7 @@ import hir
 import pathsum
 from pathsum import ERR, OK, show_term
 
+RERUN_ON_CONFIGS = ("dfm", "std")
 LEVEL = "proof"
 RULE_TEXT = ("C10-T: obligations over the HIR and the path summaries of the single generic body "
              "Interface::process<N, A> (holds for every N, adapter, stream, chunking and fault position): "
